@@ -424,6 +424,8 @@ pub fn pumped(sigma: &[char], ks: &[usize]) -> Vec<String> {
 
 pub const PUMP_LENGTHS: [usize; 14] = [6, 7, 8, 9, 15, 16, 17, 30, 31, 32, 33, 63, 64, 65];
 pub const PUMP_LENGTHS_LONG: [usize; 8] = [127, 128, 129, 255, 256, 257, 1023, 1025];
+/// around 2^16: a length or an offset kept in 16 bits
+pub const PUMP_LENGTHS_HUGE: [usize; 3] = [65535, 65536, 65537];
 
 /// Every ASCII character at every offset of an otherwise plain ASCII string whose length is
 /// around a multiple of 8 (word-at-a-time / chunked fast paths)
@@ -522,7 +524,8 @@ where
     placed.extend(ascii_blocks_with('0'));
     // pairs over the first 16 symbols (every alphabet lists its byte-shape and mapping classes first)
     placed.extend(sparse_blocks_with(sigma, &sigma[..sigma.len().min(16)], tier));
-    let long = pumped(&sigma[..sigma.len().min(6)], &PUMP_LENGTHS_LONG);
+    let mut long = pumped(&sigma[..sigma.len().min(6)], &PUMP_LENGTHS_LONG);
+    long.extend(pumped(&sigma[..sigma.len().min(3)], &PUMP_LENGTHS_HUGE));
     let mut st = run_family_placed(&placed, &placements(tier), &f);
     st.merge(run_family(&long, &f));
     st.add("family:placed_strings", placed.len() as u64);
